@@ -212,6 +212,11 @@ class World(object):
         exec('def echo(ctx, s, n):\n    _w.calls.append(("echo", s, n))\n    if _w.boom is not None:\n        raise _w.boom\n'
              '    return s\n', env)
         methods['echo'] = rpc(P.Unicode, P.Integer, _returns=P.Unicode)(env['echo'])
+        # the same with two declared SOAP header classes (the envelope part)
+        hdr_a = type(ComplexModel)('HdrA', (ComplexModel,), {'__namespace__': TNS, '_type_info': [('token', P.Unicode)]})
+        hdr_b = type(ComplexModel)('HdrB', (ComplexModel,), {'__namespace__': TNS, '_type_info': [('n', P.Integer)]})
+        exec('def echoh(ctx, s, n):\n    _w.calls.append(("echoh", s, n))\n    return s\n', env)
+        methods['echoh'] = rpc(P.Unicode, P.Integer, _returns=P.Unicode, _in_header=(hdr_a, hdr_b))(env['echoh'])
         self.service = type('LeafSvc', (ServiceBase,), methods)
 
     # ------------------------------------------------------------------ servers
@@ -937,6 +942,8 @@ def measure_facts(W):
     f['okStatus'] = r.status or 0
     # (d) transport decision table
     f['preTable'], f['preDetail'] = measure_pre_table(W)
+    # (e) the decompose stage of Soap11 / Soap12 over envelope shapes
+    f['envTable'] = measure_env_table(W)
     return f
 
 
@@ -1017,6 +1024,8 @@ def facts10 : Facts10 where
   okStatus := %d
   preTable := [
     %s]
+  envTable := [
+    %s]
 
 end SpyneModel.Generated
 ''' % (per_proto(f['parseChain'], _lean_chain), per_proto(f['decodeChain'], _lean_chain), single(f['genContexts']),
@@ -1024,7 +1033,7 @@ end SpyneModel.Generated
        per_proto(f['raisable'], lambda l: _lean_list(_lean_exc(e) for e in l)),
        per_proto(f['raisableText'], lambda l: _lean_list(_lean_exc(e) for e in l)),
        _lean_list(_lean_exc(e) for e in f['raisableDecode']),
-       per_proto(f['textInput'], lambda b: 'true' if b else 'false'), tab(f['statusPlain']), tab(f['statusSoap']), f['okStatus'], table)
+       per_proto(f['textInput'], lambda b: 'true' if b else 'false'), tab(f['statusPlain']), tab(f['statusSoap']), f['okStatus'], table, env_rows_lean(f['envTable']))
 
 
 # ====================================================================================== stage-level observations (T2)
@@ -1644,6 +1653,8 @@ def run(ctx):
     ctx.cov['facts10']['raisable'] = {p: [e['name'] for e in l] for p, l in f['raisable'].items()}
     ctx.cov['facts10']['preTable'] = {'/'.join(k): list(d) for k, d in zip(pre_keys(), f['preTable']) if d[0] != 'proceed'}
     report_fact_findings(ctx, W, f)
+    report_env_findings(ctx, W, f)
+    ctx.cov['facts10']['envTable'] = {'/'.join(k): list(d) for k, d in zip(env_keys(), f['envTable']) if d[0] != 'clientFault'}
     ctx.prove()
     # ---- T3 (+ the cases of T2)
     J = Judge(ctx, W)
@@ -1654,7 +1665,8 @@ def run(ctx):
     ctx.log('part (a) leaves: %d requests (%.1fs)' % (n1, time.time() - t))
     n2 = part_transport(ctx, W, J, t2, f)
     n3 = part_bytes(ctx, W, J, t2, f)
-    ctx.log('parts (b) transport, (c) bytes: %d + %d requests' % (n2, n3))
+    n4 = part_envelope(ctx, W, J, t2)
+    ctx.log('parts (b) transport, (c) bytes, (d) envelopes: %d + %d + %d requests' % (n2, n3, n4))
     deep_nesting_probe(ctx)
     nd = t2.run()
     ctx.log('T2 funnel: %d cases, %d disagreements' % (len(t2.q), nd))
@@ -1676,7 +1688,9 @@ def run(ctx):
         'documents also carry values of the wrong kind (null, bool, numbers, lists, maps, bytes, dates). (b) transport: the complete table '
         'request method x CONTENT_TYPE class x CONTENT_LENGTH class for every protocol and valid / cut / junk bodies, 16 charsets x 3 bodies, '
         'short-reading / raising wsgi.input, %d query strings, %d PATH_INFO values. (c) prefix truncations, byte flips, insertions, random bytes, '
-        'garbage corpora per parser (incl. the codec blocks\'), 200 000-deep documents in child processes. Oracle per case: no escaping '
+        'garbage corpora per parser (incl. the codec blocks\'), 200 000-deep documents in child processes. (d) SOAP envelopes: Header {absent, empty, '
+        '1 entry, 2 entries, unknown entry, text} x Body {absent, empty, text, comment, two children, wrong-namespace child, Fault element, valid} x '
+        'envelope namespace {own, the other SOAP version, wrong} x {soap11, soap12} x 3 validators x both transports (each row also a measured fact). Oracle per case: no escaping '
         'exception; fault code in the Client family; well-formed fault document of the output protocol; 4xx for non-SOAP; user function '
         'not run on a fault; valid requests answered normally. distinct = distinct canonical case; then the XML and dict-document blocks\' own '
         'part_c10 (generated universes: truncations, random bytes, structural mutations).' % (len(W.K), len(QUERY_STRINGS), len(PATHS)))
@@ -1685,7 +1699,7 @@ def run(ctx):
 # ====================================================================================== replay
 def replay(ctx, obj):
     kind = obj.get('kind', '')
-    if kind in ('leaf', 'leaf-native', 'transport', 'charset', 'input', 'qs', 'path', 'bytes', 'deep'):
+    if kind in ('leaf', 'leaf-native', 'transport', 'charset', 'input', 'qs', 'path', 'bytes', 'deep', 'envelope'):
         return replay_own(ctx, obj)
     for m in _blocks():
         if hasattr(m, 'replay'):
@@ -1729,6 +1743,12 @@ def replay_own(ctx, obj):
         if proto != 'http':
             runs.append(('base', run_base(W, s, data), dict(data=data)))
         env = wsgi_env(proto, data, obj['kid'])
+        runs.append(('wsgi', run_wsgi(W, s, env), dict(env=env)))
+    elif kind == 'envelope':
+        data = envelope_request(tuple(obj['key']))
+        print('request :', data.decode('utf-8'))
+        runs.append(('base', run_base(W, s, data), dict(data=data)))
+        env = wsgi_env(proto, data)
         runs.append(('wsgi', run_wsgi(W, s, env), dict(env=env)))
     elif kind == 'bytes':
         data = bytes.fromhex(obj['request_hex'])
@@ -1885,3 +1905,128 @@ def ast_cross_check(measured):
         all_measured = 'Exception' in m
         out[name] = {'ast_classes': classes, 'measured': m, 'agree': all_ast == all_measured}
     return out
+
+
+# ====================================================================================== SOAP envelope shapes
+E_PROTOS = ['soap11', 'soap12']
+E_NS = ['own', 'other', 'wrong']
+E_HEADERS = ['absent', 'empty', 'one', 'two', 'unknown', 'text']
+E_BODIES = ['absent', 'empty', 'text', 'comment', 'two', 'wrongNs', 'faultElem', 'valid']
+
+
+def env_keys():
+    return [(p, n, h, b) for p in E_PROTOS for n in E_NS for h in E_HEADERS for b in E_BODIES]
+
+
+def envelope_request(key):
+    """the envelope of one (protocol, envelope namespace, Header shape, Body shape): a request of `echoh`"""
+    from lxml import etree
+    proto, nsk, hk, bk = key
+    own = NS_SOAP11 if proto == 'soap11' else NS_SOAP12
+    other = NS_SOAP12 if proto == 'soap11' else NS_SOAP11
+    ns = {'own': own, 'other': other, 'wrong': 'urn:not-a-soap-envelope'}[nsk]
+    q = lambda x: '{%s}%s' % (TNS, x)
+    env = etree.Element('{%s}Envelope' % ns, nsmap={'senv': ns, 'tns': TNS})
+
+    def call(name='echoh'):
+        root = etree.Element(q(name))
+        etree.SubElement(root, q('s')).text = 'hi'
+        etree.SubElement(root, q('n')).text = '5'
+        return root
+    if hk != 'absent':
+        hdr = etree.SubElement(env, '{%s}Header' % ns)
+        if hk in ('one', 'two'):
+            etree.SubElement(etree.SubElement(hdr, q('HdrA')), q('token')).text = 't'
+        if hk == 'two':
+            etree.SubElement(etree.SubElement(hdr, q('HdrB')), q('n')).text = '7'
+        if hk == 'unknown':
+            etree.SubElement(hdr, '{urn:elsewhere}Other').text = 'x'
+        if hk == 'text':
+            hdr.text = 'just text'
+    if bk != 'absent':
+        body = etree.SubElement(env, '{%s}Body' % ns)
+        if bk == 'text':
+            body.text = 'just text'
+        elif bk == 'comment':
+            body.append(etree.Comment(' nothing here '))
+        elif bk == 'two':
+            body.append(call())
+            body.append(call('zzSecondEntry'))
+        elif bk == 'wrongNs':
+            c = etree.SubElement(body, '{urn:elsewhere}echoh')
+            etree.SubElement(c, '{urn:elsewhere}s').text = 'hi'
+        elif bk == 'faultElem':
+            fe = etree.SubElement(body, '{%s}Fault' % ns)
+            etree.SubElement(fe, 'faultcode').text = 'senv:Client.Echoed'
+            etree.SubElement(fe, 'faultstring').text = 'a fault sent as a request'
+        elif bk == 'valid':
+            body.append(call())
+    return etree.tostring(env, encoding='utf-8', xml_declaration=True)
+
+
+def measure_env_table(W):
+    """every envelope shape replayed on the real ServerBase (validator None): called / clientFault code / serverFault code /
+    escape class"""
+    rows = []
+    for key in env_keys():
+        s = W.server(key[0], None)
+        r = run_base(W, s, envelope_request(key))
+        if r.kind == 'escape':
+            rows.append(('escape', r.exc))
+        elif r.kind == 'ok':
+            rows.append(('called',) if r.calls == 1 else ('serverFault', 'calls=%d' % r.calls))
+        elif is_client(r.code):
+            rows.append(('clientFault', r.code))
+        else:
+            rows.append(('serverFault', r.code or 'None'))
+    return rows
+
+
+def env_rows_lean(rows):
+    out = []
+    for d in rows:
+        out.append('.called' if d[0] == 'called' else '.%s %s' % (d[0], _lean_str(d[1])))
+    return ',\n    '.join(', '.join(out[i:i + 8]) for i in range(0, len(out), 8))
+
+
+def report_env_findings(ctx, W, f):
+    for key, d in zip(env_keys(), f['envTable']):
+        if d[0] in ('called', 'clientFault'):
+            continue
+        s = W.server(key[0], None)
+        data = envelope_request(key)
+        diag = diagnose(W, s, data=data) if d[0] == 'serverFault' else None
+        ctx.hit('fact-bad:envelope')
+        exc = d[1] if d[0] == 'escape' else (diag[0] if diag else 'server-fault')
+        frame = diag[1] if diag else 'envelope'
+        ctx.finding('c10:%s:soap:%s:%s' % ('escape:base' if d[0] == 'escape' else 'server-fault', exc, frame),
+                    'a %s envelope (namespace %s) with Header %s and Body %s is answered with %s %s%s instead of a Client fault' % (
+                        key[0], key[1], key[2], key[3], d[0], d[1], ': %s raised in %s during %s' % diag if diag else ''),
+                    {'kind': 'envelope', 'key': list(key), 'proto': key[0], 'validator': None, 'request': data.decode('utf-8')})
+
+
+def part_envelope(ctx, W, J, t2):
+    """the envelope cross product Header x Body x envelope namespace for Soap11 and Soap12, every validator, through ServerBase and
+    WsgiApplication"""
+    n = 0
+    for key in env_keys():
+        proto = key[0]
+        data = envelope_request(key)
+        for validator in (None, 'soft', 'lxml'):
+            s = W.server(proto, validator)
+            rp = {'kind': 'envelope', 'key': list(key), 'request': data.decode('utf-8')}
+            r = run_base(W, s, data)
+            n += 1
+            ctx.case({'envelope': list(key), 'v': validator, 't': 'base'})
+            ctx.hit('envelope:%s:%s:%s' % (key[2], key[3], r.kind if r.kind != 'fault' else ('client' if is_client(r.code) else 'server')))
+            J.check(s, r, 'base', rp, leaf='envelope', data=data)
+            t2.add(funnel_query(W, s, 'base', data=data), r, dict(rp, proto=proto, validator=validator, transport='base'))
+            env = wsgi_env(proto, data)
+            r = run_wsgi(W, s, env)
+            n += 1
+            ctx.case({'envelope': list(key), 'v': validator, 't': 'wsgi'})
+            env['wsgi.input'] = Input(data)
+            J.check(s, r, 'wsgi', rp, leaf='envelope', env=env)
+            t2.add(funnel_query(W, s, 'wsgi', env=env, key=std_key(proto)), r, dict(rp, proto=proto, validator=validator, transport='wsgi'))
+    ctx.cov['envelope_requests'] = n
+    return n
